@@ -27,12 +27,14 @@ func init() {
 		ruleORD7b(w, r)
 		ruleORD1b(w, r)
 		ruleCDC5(w, r)
-		ruleCDC6(w, r)  // a torn first frame is repaired, not a reason to refuse start-up
-		ruleORD2c(w, r) // the older snapshot is retired only once the compacted log is in place
-		ruleORD10(w, r) // a crash inside a precision change must leave an openable directory
-		ruleORD4(w, r)  // a refused compaction must not end a running snapshot's shadow mode
-		ruleORD9(w, r)  // a crash right after a snapshot must not lose writes that were being applied while it was taken
-		ruleORD11(w, r) // the offset a torn tail is truncated to never lags behind the frames already applied
+		ruleCDC6(w, r)       // a torn first frame is repaired, not a reason to refuse start-up
+		ruleORD2c(w, r)      // the older snapshot is retired only once the compacted log is in place
+		ruleORD10(w, r)      // a crash inside a precision change must leave an openable directory
+		ruleORD4(w, r)       // a refused compaction must not end a running snapshot's shadow mode
+		ruleORD9(w, r)       // a crash right after a snapshot must not lose writes that were being applied while it was taken
+		ruleORD11(w, r)      // the offset a torn tail is truncated to never lags behind the frames already applied
+		ruleORD13(w, r)      // index drop: the VDROP record is in the file before the arena is destroyed
+		ruleGRDasyncrm(w, r) // no deferred deletion by path name
 	})
 	register("C14", "no acknowledged write lost to snapshot/compaction/shutdown", func(w *World, r *Report) {
 		ruleORD1(w, r)
@@ -45,6 +47,8 @@ func init() {
 		ruleORD5(w, r)
 		ruleORD6(w, r)
 		ruleORD8(w, r)
+		ruleCDC13(w, r) // a vector acknowledged while a snapshot ran keeps its metadata across the restart
+		ruleORD12(w, r) // a write acknowledged right after a snapshot never precedes older shadow writes in the log
 	})
 }
 
@@ -59,6 +63,7 @@ func init() {
 		ruleWEB7(w, r)      // … and the same for handlers that string several engine calls together
 		ruleORD4(w, r)      // a refused compaction/snapshot must not end someone else's shadow mode
 		ruleEFFcreate(w, r) // duplicate index name: rejected means unchanged
+		ruleJRN6(w, r)      // unsupported metric/precision: refused before the journal write
 	})
 	register("C01", "clean restart reproduces the pre-shutdown state", func(w *World, r *Report) {
 		ruleJRN12(w, r, nil)
@@ -74,7 +79,11 @@ func init() {
 		ruleCDC9(w, r)  // a compaction re-emits every edge and every key-value pair
 		ruleCDC11(w, r) // index configuration durations survive the journal unchanged
 		ruleSIBnumtypes(w, r)
-		ruleCDC12(w, r) // the snapshot carries every node, soft-deleted ones included
+		ruleCDC12(w, r)      // the snapshot carries every node, soft-deleted ones included
+		ruleCDC13(w, r)      // replay completes a node the snapshot captured without its metadata
+		ruleORD12(w, r)      // clean restart: the newest acknowledged value wins, also for writes that raced the end of a snapshot
+		ruleGRDasyncrm(w, r) // drop, re-create, add under one name: the new arena is not deleted by the old drop
+		ruleJRN6(w, r)       // a refused create does not mask a later valid one on replay
 	})
 }
 
@@ -109,6 +118,7 @@ func init() {
 		ruleGRDverbatimFilter(w, r)
 		ruleGRDstaleLookup(w, r) // an inner index map read before the pruning of old entries is not written afterwards
 		ruleGRDverbatimKey(w, r) // string equality asks the inverted index for the value as written
+		ruleCDC13(w, r)          // filters select the same vectors after a restart, also for adds that raced a snapshot
 	})
 }
 
